@@ -619,7 +619,9 @@ pub fn pool_groups(prop: &'static str, proj: Proj, q: bool, max_dev: usize) -> V
     let mut p2 = plan(prop, proj, if q { 3 } else { 4 }, 0);
     p2.alphabet = TABLE_ALPHABET.to_vec();
     p2.extra_inputs = vec!["az9_!".into(), "zZ.9\u{10FFFF}a".into(), "aZz99.9!".into()];
-    vec![Group { plan: p1, specs: shape_pool(q) }, Group { plan: p2, specs: builtin_rules_family() }]
+    // the table lexers are expensive to compile: the quick tier keeps three of them
+    let tables: Vec<Spec> = if q { builtin_rules_family().into_iter().enumerate().filter(|(i, _)| [0usize, 3, 4].contains(i)).map(|(_, s)| s).collect() } else { builtin_rules_family() };
+    vec![Group { plan: p1, specs: shape_pool(q) }, Group { plan: p2, specs: tables }]
 }
 
 fn with<F: FnOnce(&mut Plan)>(mut p: Plan, f: F) -> Plan {
@@ -748,7 +750,12 @@ fn groups_core(prop: &str, tier: &str) -> Vec<Group> {
             specs.extend(fallible);
             vec![Group { plan: plan("C03", Proj::RuleIds, 5, if q { 2 } else { 3 }), specs }]
         }
-        "C04" => vec![Group { plan: plan("C04", Proj::Full, if q { 5 } else { 6 }, if q { 0 } else { 1 }), specs: ctx_family(!q) }],
+        "C04" => {
+            let mut specs = ctx_family(!q);
+            // contexts written with rule-set-local variables (same name, different meaning per rule set)
+            specs.extend(groups_core("C16", tier).remove(0).specs.into_iter().filter(|s| s.family == "let_scope_ctx" || s.family == "let_chain"));
+            vec![Group { plan: plan("C04", Proj::Full, if q { 5 } else { 6 }, if q { 0 } else { 1 }), specs }]
+        }
         "C05" => {
             let mut p = plan("C05", Proj::Full, if q { 5 } else { 6 }, 2);
             p.alphabet = vec!['a', 'b', 'c'];
